@@ -19,7 +19,7 @@ import threading
 import time
 
 from . import absfn, interpose, tlc, tokens
-from .driver import Driver, load_hashstore
+from .driver import Driver, load_hashstore, make_store
 from .ids import Inst, write_inputs
 from .conccheck import C, cstr, ALL_OPS
 
@@ -124,7 +124,7 @@ class Enumerator:
     # ---------------------------------------------------------------- op log
     def oplog(self):
         self._fresh()
-        store = self.fhs.FileHashStore(self.inst.props(self.root))
+        store = make_store(self.fhs, self.inst.props(self.root))
         drv = Driver(self.inst, self.root, self.inputs, self.fhs, store=store)
         ctx = SeqContext(self.root, tokens.make_classifier(self.root, self.inst))
         with interpose.active(ctx):
@@ -137,7 +137,7 @@ class Enumerator:
         pid = os.fork()
         if pid == 0:
             try:
-                store = self.fhs.FileHashStore(self.inst.props(self.root))
+                store = make_store(self.fhs, self.inst.props(self.root))
                 drv = Driver(self.inst, self.root, self.inputs, self.fhs, store=store)
                 ctx = SeqContext(self.root, tokens.make_classifier(self.root, self.inst))
                 ctx.keep_log = False
@@ -175,7 +175,7 @@ class Enumerator:
     # ---------------------------------------------------------------- fault
     def fault(self, k, mode, err):
         self._fresh()
-        store = self.fhs.FileHashStore(self.inst.props(self.root))
+        store = make_store(self.fhs, self.inst.props(self.root))
         drv = Driver(self.inst, self.root, self.inputs, self.fhs, store=store)
         ctx = SeqContext(self.root, tokens.make_classifier(self.root, self.inst))
         ctx.keep_log = False
